@@ -1,15 +1,16 @@
-(* C03 -- Every explored execution is consistent with the C11 memory model. Full statement refuted on this tree by D4 (listed finding); proved: loom transfers at least the clocks C11 demands.
+(* C03 -- Every explored execution is consistent with the C11 memory model. D4 (RMW atomicity) was a genuine defect, repaired by fix commit 189e88b; proved: loom transfers at least the clocks C11 demands; the D4 litmus outcome is forbidden by RC11 and no longer explored.
    Statements restated in full, closed with exact, assumptions printed. *)
 Require Import LV.Base LV.VV LV.VVFacts LV.Path LV.Prog LV.Objects LV.Exec LV.Atomic LV.Ops LV.Check LV.Ref LV.Outcome LV.RC11 LV.Witness LV.SyncFacts.
 
-(* D4: an outcome forbidden by RC11 (even with SeqCst demoted and C++20 release sequences) is explored: RMW atomicity/coherence is violated *)
-Theorem C03_refuted_D4_rmw_atomicity :
+(* D4 (repaired): the outcome forbidden by RC11 (even with SeqCst demoted and C++20 release sequences) is no longer explored by the model of the repaired code *)
+Theorem C03_D4_repaired_rmw_atomicity :
   rc11_allows false true (fun _ : nat => 0%N) litmus_D4 (S (rc11_enough_fuel litmus_D4))
          [[0%N; 2%N]; [0%N; 2%N]] = false /\
        rc11_allows true false (fun _ : nat => 0%N) litmus_D4 (S (rc11_enough_fuel litmus_D4))
-         [[0%N; 2%N]; [0%N; 2%N]] = false /\ mem_outcome o_D4 (explored p_D4 (recs_of p_D4)) = true.
-Proof. exact D4_forbidden_but_explored. Qed.
-Print Assumptions C03_refuted_D4_rmw_atomicity.
+         [[0%N; 2%N]; [0%N; 2%N]] = false /\
+       fin_of p_D4 = RunOk /\ mem_outcome o_D4 (explored p_D4 (recs_of p_D4)) = false.
+Proof. exact D4_repaired. Qed.
+Print Assumptions C03_D4_repaired_rmw_atomicity.
 
 (* a release store read by an acquire load makes everything before the store happen-before everything after the load *)
 Theorem C03_release_acquire_handover :
